@@ -50,10 +50,10 @@ def run(ctx):
     for proto in ("v2c", "v3p_md5"):
         solo_cache, ex_cache = {}, {}
 
-        def prep(ops, clients, same_agent=False):
-            key = (tuple(map(tuple, ops)), clients, same_agent)
+        def prep(ops, clients, same_agent=False, **kw):
+            key = (tuple(map(tuple, ops)), clients, same_agent, tuple(sorted(kw.items())))
             if key not in solo_cache:
-                solo_cache[key] = D.solo_results(proto, ops, clients, same_agent)
+                solo_cache[key] = D.solo_results(proto, ops, clients, same_agent, **kw)
                 ex_cache[key] = D.exchanges(proto, ops, clients, same_agent)
             return solo_cache[key], ex_cache[key]
         plans = [([[n, 0] for n in s], 1, 400 if not q else 40) for s in sets2] + [([[n, 0] for n in s], 1, 1200 if not q else 60) for s in sets3] \
@@ -75,6 +75,16 @@ def run(ctx):
                     order = (first * 12)[:after] + [k for k in word if True]
                     sc = dict(proto=proto, ops=ops, order=order, clients=clients, late={k: after for k in second})
                     T.append(dict(scenario=dict(sc, solo=solo), events=asyncio.run(D.run_schedule(sc))))
+        # (a) the clock stands still, so concurrent requests share their request id; (b) the agent answers at once and the network reorders the
+        # answers (an older-stamped authentic answer may arrive after a newer one)
+        for kw in (dict(freeze=True), dict(eager=True)):
+            for ops, limit in [([["get", 0], ["get2", 0]], 10), ([["get", 0], ["walkA", 0], ["walkC", 0], ["set", 0]], 40 if q else 300), ([["walkA", 0], ["bulkA", 0], ["set2", 0]], 30 if q else 200),
+                               ([["set", 0], ["set2", 0], ["get", 0]], 30 if q else 200)]:
+                solo, ex = prep(ops, 1, False, **kw)
+                word = [k for k, n in ex.items() for _ in range(n)]
+                for order in distinct_orders(word, limit, rnd):
+                    sc = dict(proto=proto, ops=ops, order=list(order), clients=1, **kw)
+                    T.append(dict(scenario=dict(sc, solo=solo), events=asyncio.run(D.run_schedule(sc))))
         if proto.startswith("v3"):
             # different users (other pass-phrases, same hash) on ONE agent: keys are per user and engine, never per engine alone
             for ops, clients, limit in [([["get", 0], ["get", 1]], 2, 40), ([["get", 0], ["walkC", 1], ["set", 2]], 3, 60 if q else 300), ([["get2", 1], ["get", 0]], 2, 40)]:
@@ -88,7 +98,8 @@ def run(ctx):
     ctx.judge(T, verdicts, signature=sig, nontrivial=lambda tr, v: json.dumps([tr["scenario"]["proto"], tr["scenario"]["ops"], tr["scenario"]["order"]]))
     ctx.rule = ("sets of 2..6 concurrent operations (gets, multiget, sets, walks incl. overlapping subtrees, bulk walks, table) on one shared client and on two clients "
                 "for different agents on one loop, two / three clients of different users (other pass-phrases) for one agent, GET and GETNEXT of the same name in flight together, v2c and v3 authPriv; all distinct orders of answering the pending requests for the small sets (up to the limit), "
-                "seeded orders beyond; the clock advances between any two requests so that request ids differ; each operation's outcome is compared with its solo outcome")
+                "seeded orders beyond; the clock advances between any two requests so that request ids differ, or stands still so that they coincide; answers produced on release or at once (and then "
+                "reordered); the transport settings of every request are compared too; each operation's outcome is compared with its solo outcome")
     ctx.exhaustive = False
     ctx.assumptions = ["a response is always the agent's answer to the request it is released for (responses are never swapped between requests by the harness)"]
 
